@@ -125,6 +125,10 @@ func (g *dgen) structDef() *vh.TSpec {
 		opt := ""
 		if rapid.IntRange(0, 5).Draw(g.t, "hazardtype") == 0 {
 			ft = g.hazardType()
+			// an option on the field does not make an unsupported nesting acceptable
+			if rapid.IntRange(0, 2).Draw(g.t, "hazardopt") == 0 {
+				opt = hazardOpts[rapid.IntRange(0, len(hazardOpts)-1).Draw(g.t, "hzopt")]
+			}
 		} else {
 			ft, opt = g.okType(1)
 		}
